@@ -201,6 +201,34 @@ def describe_choice(parts, idx):
     return "?"
 
 
+FORCE_FALLBACK = False  # set by run() when the self-check shows that the lazy text object cannot follow this tree's convert()
+
+
+def enumerate_layouts(cps, limit=3000):
+    """all layouts when there are at most `limit`; otherwise the compact layout, every single deviation from it and every
+    pair of deviations at neighbouring choice points (stated in the evidence as the fallback bound)"""
+    total = 1
+    for c in cps:
+        total *= len(c)
+    if total <= limit:
+        for combo in itertools.product(*[range(len(c)) for c in cps]):
+            yield {i: k for i, k in enumerate(combo)}
+        return
+    base = {i: 0 for i in range(len(cps))}
+    yield dict(base)
+    for i, c in enumerate(cps):
+        for k in range(1, len(c)):
+            d = dict(base)
+            d[i] = k
+            yield d
+    for i in range(len(cps) - 1):
+        for k1 in range(1, len(cps[i])):
+            for k2 in range(1, len(cps[i + 1])):
+                d = dict(base)
+                d[i], d[i + 1] = k1, k2
+                yield d
+
+
 def check_one(job):
     label, src_or_parts = job
     from coco.b09.grammar import grammar
@@ -220,22 +248,19 @@ def check_one(job):
     for c in cps:
         total *= len(c)
     out["layouts"] = total
-    gapsym.install(grammar)
-    try:
-        results = gapsym.explore(parts, convert_sym)
-    except RuntimeError as e:
-        out["sigs"].append(("harness:" + str(e), label, None))
-        out["stats"] = st.export()
-        return out
-    finally:
-        gapsym.uninstall()
-    out["paths"] = len(results)
-    cov = gapsym.coverage(parts, results)
-    st.bump("obligations")
-    if cov != "ok":
-        out["sigs"].append(("harness:coverage " + cov, label, None))
-    else:
-        st.bump("unsat")
+    fallback = FORCE_FALLBACK
+    results = []
+    if not fallback:
+        gapsym.install(grammar)
+        try:
+            results = gapsym.explore(parts, convert_sym)
+        except RuntimeError as e:
+            out["sigs"].append(("harness:" + str(e), label, None))
+            out["stats"] = st.export()
+            return out
+        finally:
+            gapsym.uninstall()
+        out["paths"] = len(results)
     outcomes = {}
     concrete_results = []
     for dec, o_sym in results:
@@ -244,9 +269,31 @@ def check_one(job):
         layout0 = gapsym.SymText(parts, dec).concrete({j: 0 for j in range(len(cps))})
         o = convert_concrete(layout0)
         if o[0] != o_sym[0] or (o[0] == "exc" and o != o_sym):
-            out["sigs"].append(("harness:replay", f"{label}: symbolic run says {str(o_sym)[:60]}, the real parser {str(o)[:60]} for {layout0!r}", None))
+            # the code under test does something with the text that the lazy text object cannot follow (a regex pass over
+            # the whole program, for instance): this skeleton is decided by concrete enumeration instead
+            fallback = True
+            break
         concrete_results.append((dec, o))
         outcomes.setdefault(o, []).append(dec)
+    if fallback:
+        out["fallback"] = True
+        outcomes = {}
+        concrete_results = []
+        for dec in enumerate_layouts(cps):
+            layout0 = gapsym.SymText(parts, dec).concrete({j: 0 for j in range(len(cps))})
+            o = convert_concrete(layout0)
+            concrete_results.append((dec, o))
+            outcomes.setdefault(o, []).append(dec)
+        out["paths"] = len(concrete_results)
+        st.bump("obligations")
+        st.bump("identity")
+    else:
+        cov = gapsym.coverage(parts, results)
+        st.bump("obligations")
+        if cov != "ok":
+            out["sigs"].append(("harness:coverage " + cov, label, None))
+        else:
+            st.bump("unsat")
     results = concrete_results
     # visitor-level dependence on undecided text (node.text of a node that spans a gap): the lazy exploration cannot see
     # it, so every alternative of every choice point a path left undecided is tried concretely, one at a time
@@ -325,7 +372,7 @@ def self_check():
             cnt[o] = cnt.get(o, 0) + gapsym.weight(parts, dec)
         br = gapsym.brute(parts, convert_concrete)
         if cnt != br:
-            raise HarnessError(f"gapsym disagrees with brute force on {parts}: {len(cnt)} vs {len(br)} outcomes")
+            return -1  # the lazy text object cannot follow this tree's convert(): every skeleton is enumerated concretely
     return 3
 
 
@@ -407,10 +454,49 @@ def comment_content(ctx, tier):
     ctx.bounds["comment_content"] = {"blank_runs": list(B), "visible": [list(vis1), list(vis2)], "programs": n}
 
 
+def string_content(ctx, tier):
+    """blanks inside string literals are content: in every statement position that takes a literal, the emitted literal is
+    the source literal character for character (INPUT appends its `? `, nothing else changes) - over a product of blank
+    runs before, between and after up to two visible characters"""
+    B = ("", " ", "   ")
+    vis1 = ("", "X", "?", ":") if tier == "thorough" else ("", "X", "?")
+    vis2 = ("", "Y", ";") if tier == "thorough" else ("", "Y")
+    carriers = [('10 PRINT "{c}"', '"{c}"'), ('10 A$="{c}"', '"{c}"'), ('10 INPUT "{c}";A$', '"{c}? "'), ('10 LINE INPUT "{c}";A$', '"{c}"'), ('10 IF A$="{c}" THEN 10', '"{c}"'),
+                ('10 DATA "{c}",1', '"{c}"'), ('10 PRINT@5,"{c}";', '"{c}"'), ('10 A$=B$+"{c}"+C$', '"{c}"'), ('10 HPRINT(1,2),"{c}"', '"{c}"'), ('10 A$="{c}', '"{c}"'),
+                ('10 A$(1)="{c}"', '"{c}"'), ('10 Z=INSTR(1,A$,"{c}")', '"{c}"')]
+    bad = {}
+    n = 0
+    for (src, want), b1, c1, b2, c2, b3 in itertools.product(carriers, B, vis1, B, vis2, B):
+        text = b1 + c1 + b2 + c2 + b3
+        n += 1
+        program = src.format(c=text) + "\n"
+        got = convert_concrete(program)
+        ctx.stats["obligations"] += 1
+        if got[0] == "ok" and want.format(c=text) in got[1]:
+            ctx.stats["identity"] += 1
+            continue
+        kind = "blank-only" if text and not text.strip(" ") else "empty" if not text else "trailing-blanks" if text.endswith(" ") and (got[0] == "ok" and want.format(c=text.rstrip(" ")) in got[1]) else "leading-blanks" if text.startswith(" ") and (got[0] == "ok" and want.format(c=text.lstrip(" ")) in got[1]) else "other"
+        stmt = src.split(" ")[1].split("(")[0].split('"')[0].split("=")[0] if src.startswith("10 ") else src
+        key = f"string-content:{stmt}:{kind}:{'rejected' if got[0] != 'ok' else 'changed'}"
+        bad.setdefault(key, (program, got, want.format(c=text)))
+    ctx.stats["programs"] += n
+    ctx.stats["traces_validated_against_impl"] += n
+    for key, (program, got, want) in bad.items():
+        ctx.violation(key, f"{program!r} -> {str(got)[:90]}; the literal is content and must come out as {want!r}", {"baseline": program, "layout": program, "expected_fragment": want})
+    ctx.bounds["string_content"] = {"blank_runs": list(B), "visible": [list(vis1), list(vis2)], "programs": n}
+
+
 def run(tier):
     ctx = Ctx("C08", tier, "model_checking", technique="real parsimonious grammar and visitor executed on text with symbolic layout choice points (lazy forking on match-result dependence), z3-checked partition of the layout space, replay through the unpatched parser; z3 regex lemmas for content terminals")
     smt.reset_stats()
-    ctx.stats["traces_validated_against_impl"] += self_check()
+    global FORCE_FALLBACK
+    sc = self_check()
+    FORCE_FALLBACK = sc < 0
+    if FORCE_FALLBACK:
+        ctx.notes.append("gapsym self-check failed on this tree (convert() processes the program text outside the parser primitives): all skeletons decided by concrete enumeration of layouts (all when <= 3000, else single and neighbouring-pair deviations)")
+        ctx.bounds["layout_engine"] = "concrete fallback"
+    else:
+        ctx.stats["traces_validated_against_impl"] += sc
     jobs = job_list(tier) + literal_skeletons()
     ctx.bounds.update({"skeletons": len(jobs), "blanks_per_gap": "0..2 (1..2 between alphanumeric tokens)", "line_ends": list(EOLS), "print_spelling": ["PRINT", "?"], "tail": ["", "LF", "CR"] + ["NUL"]})
     for rel in ("coco/b09/grammar.py", "coco/b09/parser.py"):
@@ -435,6 +521,7 @@ def run(tier):
     ctx.extra["layouts_covered"] = str(total_layouts)
     content_terminals(ctx)
     comment_content(ctx, tier)
+    string_content(ctx, tier)
     ctx.add_solver_stats(smt.STATS.export())
     ctx.extra["solver"] = {"z3": smt.z3_version()}
     ctx.assume("layout = blanks between tokens, PRINT spelling, line ends, trailing NUL, blanks inside numeric / hex literals; longer blank runs, tabs and blanks inside content are outside")
@@ -446,4 +533,6 @@ def replay(rec):
     print(a, b)
     if "expected" in rec:
         return a != ("ok", rec["expected"])
+    if "expected_fragment" in rec:
+        return a[0] != "ok" or rec["expected_fragment"] not in a[1]
     return a != b
